@@ -40,6 +40,19 @@ def identifiers(tree):
     return out
 
 
+def _occurrences(n):
+    if isinstance(n, ast.Name):
+        yield "name", n.id
+    elif isinstance(n, ast.Attribute):
+        yield "attr", n.attr
+    elif isinstance(n, (ast.FunctionDef, ast.AsyncFunctionDef, ast.ClassDef)):
+        yield "def", n.name
+    elif isinstance(n, ast.arg):
+        yield "arg", n.arg
+    elif isinstance(n, ast.keyword) and n.arg:
+        yield "arg", n.arg
+
+
 def _functions(tree):
     out = {}
 
@@ -166,6 +179,26 @@ def rename_map(trees):
     for t in trees.values():
         cur_ids |= identifiers(t)
     fresh = {x for x in cur_ids - ref_ids if not x.startswith("__")}
+    # function-local variables are the business of engine/alpha.py (per function, capture-checked): an identifier that occurs only as
+    # a plain name inside functions is not a project-wide name
+    non_local = set()
+    for t in trees.values():
+        for n in ast.walk(t):
+            if isinstance(n, ast.Attribute):
+                non_local.add(n.attr)
+            elif isinstance(n, (ast.FunctionDef, ast.AsyncFunctionDef, ast.ClassDef)):
+                non_local.add(n.name)
+            elif isinstance(n, ast.arg):
+                non_local.add(n.arg)
+            elif isinstance(n, ast.keyword) and n.arg:
+                non_local.add(n.arg)
+            elif isinstance(n, ast.alias):
+                non_local.add((n.asname or n.name).split(".")[-1])
+        for st in t.body:                                    # module-level assignments
+            for n in ast.walk(st) if isinstance(st, (ast.Assign, ast.AugAssign, ast.AnnAssign)) else ():
+                if isinstance(n, ast.Name) and isinstance(n.ctx, ast.Store):
+                    non_local.add(n.id)
+    fresh &= non_local
     if not fresh:
         return {}
     vanishing = ref_ids - cur_ids
@@ -212,13 +245,41 @@ def rename_map(trees):
             if best_r is not None and best >= 0.75:
                 used.add(best_r)
                 voter.pairs(cf, rfunc(best_r))
+    cur_defs = set()
+    for t in trees.values():
+        for n in ast.walk(t):
+            if isinstance(n, (ast.FunctionDef, ast.AsyncFunctionDef, ast.ClassDef)):
+                cur_defs.add(n.name)
     out = {}
     for a, d in voter.votes.items():
         best = max(d.items(), key=lambda kv: kv[1])
         total = sum(d.values())
         if best[1] * 5 < total * 4:
             continue
+        if a in cur_defs and best[0] in cur_defs:
+            continue        # a new function next to a surviving one of the old name is a restructuring (template method, split), not a rename
         out[a] = best[0]
+    # no merging: where the fresh identifier occurs (module, kind of occurrence), the reference identifier must not still be in use in
+    # the same role - otherwise rewriting would identify two entities that the current tree keeps apart
+    occ = {}
+    for rel, t in trees.items():
+        scope = {}
+        for c in ast.walk(t):
+            if isinstance(c, ast.ClassDef):
+                for n in ast.walk(c):
+                    scope.setdefault(id(n), c.name)
+        for n in ast.walk(t):
+            for kind, ident in _occurrences(n):
+                if kind == "attr":
+                    # an attribute is told apart by the class it is used in and by what it is taken from (self.x / other.x)
+                    root = n.value
+                    while isinstance(root, (ast.Attribute, ast.Subscript, ast.Call)):
+                        root = root.value if not isinstance(root, ast.Call) else root.func
+                    kind = ("attr", scope.get(id(n)), root.id if isinstance(root, ast.Name) else "?")
+                occ.setdefault(ident, set()).add((rel, kind))
+    for a, b in list(out.items()):
+        if occ.get(a, set()) & occ.get(b, set()):
+            del out[a]
     inv = {}
     for a, b in out.items():
         inv.setdefault(b, []).append(a)
